@@ -219,6 +219,49 @@ def handle (sess : Sess) (rep : Report) (ln : Nat) (toks : List String) (obs : S
           if obs == "bad-op" then (sess, rep)
           else ({ sess with model := none }, { rep.msg s!"DIVERGE line={ln} model=bad-op impl={obs}" with diverged := rep.diverged + 1 })
     | _, _, _ => (sess, rep.msg s!"BAD line={ln}")
+  | "pickpre" :: rest =>
+    -- a pick whose context has ended before Pick is called: what the model does for the pick, and — if
+    -- that leaves the call waiting for its round-robin slot — for the end of the context right after
+    if !sess.active then (sess, rep.bump "pool.skipped_after_divergence") else
+    match parseOp ("pick" :: rest) obs with
+    | none => (sess, rep.msg s!"BAD line={ln}")
+    | some op =>
+      let call := match op with | .pick c _ _ _ _ _ => c | _ => 0
+      let parts := obs.splitOn " ; "
+      let rep := rep.bump "pool.pick_with_ended_context"
+      -- monitors: a "nosc" answer to a pick that had to wait is the wait followed by the context's end
+      let waitedInModel : Bool := match sess.model with
+        | some s => (step s op).2.contains (.res "waiting")
+        | none => false
+      let report (rep : Report) (fs : List (String × String)) (hs : List String) : Report :=
+        let rep := fs.foldl (fun (rep : Report) (pc : String × String) =>
+          { rep.msg s!"MONITOR property={pc.1} clause={pc.2} line={ln}" with monitorFails := rep.monitorFails + 1 }) rep
+        hs.foldl (fun (rep : Report) h => rep.bump h) rep
+      let mr : MonState × Report :=
+        if waitedInModel then
+          -- the pick drew its round-robin slot and had to wait; the ended context made it return at once
+          let isRes (e : String) : Bool := e.startsWith "placed sc=" || e == "nosc" || e == "tf" || e == "keyerr"
+          let evs1 := (parts.filter fun e => !isRes e && !e.startsWith "dg ") ++ ["waiting"]
+          let (mon, f1, h1) := sess.mon.observe op evs1 none
+          let (mon, f2, h2) := mon.observe (.ctxdone call) (parts.filter isRes) (parseDigest obs)
+          (mon, report rep (f1 ++ f2) (h1 ++ h2))
+        else
+          let (mon, f1, h1) := sess.mon.observe op parts (parseDigest obs)
+          (mon, report rep f1 h1)
+      let mon := mr.1
+      let rep := mr.2
+      match sess.model with
+      | none => ({ sess with mon := mon }, rep)
+      | some s =>
+        let (s1, e1) := step s op
+        let (s2, evs) := if e1.contains (.res "waiting") then
+            let (s2, e2) := step s1 (.ctxdone call)
+            (s2, (e1.filter (· != .res "waiting")) ++ e2)
+          else (s1, e1)
+        let mine := if evs == [.res "bad-op"] then "bad-op" else " ; ".intercalate (evs.map evStr ++ [digest s2])
+        if mine == obs then ({ sess with model := some s2, mon := mon }, rep)
+        else ({ sess with model := none, mon := mon },
+              { rep.msg s!"DIVERGE line={ln} model={mine} impl={obs}" with diverged := rep.diverged + 1 })
   | "doneswap" :: rest =>
     -- a successful BIND completion overlaps with the report that completes a refresh (the swap): the
     -- outcome must be that of one of the two sequential orders (C01 / C07: the keys follow the channel)
